@@ -131,7 +131,11 @@ def mkEnv (t : Tables) : Env String JsonNumber V :=
 /-! ### requests -/
 def parseFault (j : Json) : R (Option Fault) :=
   if j.isNull then pure none else do
-    return some ⟨← fldNat j "idx", unhex (← fldStr j "part"), (← fldStrs j "after").map unhex⟩
+    let after ← (← fldArr j "after").mapM (fun e => do
+      match ← arr e with
+      | [c, b] => return (unhex (← c.getStr?), ← b.getBool?)
+      | _ => throw "bad after-write")
+    return some ⟨← fldNat j "idx", unhex (← fldStr j "part"), after⟩
 
 def parseParam (j : Json) : R (Param V) := do
   return { name := ← fldStr j "name", persistent := ← fldBool j "persistent", auto := ← fldBool j "auto",
